@@ -4,11 +4,15 @@ import (
 	"bytes"
 	"io/fs"
 	"strings"
+	"sync"
 
 	"github.com/titpetric/lessgo/dst"
 	"github.com/titpetric/lessgo/renderer"
 	"golang.org/x/net/html"
 )
+
+// lessRenderMu serialises calls into the lessgo renderer (see compileLessTag).
+var lessRenderMu sync.Mutex
 
 // LessProcessorError wraps processing errors with context.
 type LessProcessorError struct {
@@ -124,8 +128,12 @@ func (lp *LessProcessor) compileLessTag(styleNode *html.Node) error {
 	}
 
 	// Render LESS to CSS
+	// lessgo's renderer stores the base directory in a package-level variable
+	// on every Render call, so concurrent renders race on it: serialise them.
+	lessRenderMu.Lock()
 	r := renderer.NewRenderer()
 	css, err := r.Render(file)
+	lessRenderMu.Unlock()
 	if err != nil {
 		return &LessProcessorError{Err: err, Reason: "failed to render LESS to CSS"}
 	}
